@@ -84,6 +84,16 @@ End Keys.
 Print Assumptions C17_keys_unlock_own_only.
 Print Assumptions C17_cross_unlock.
 
+(* The premise [kdf_inj] is needed, and the real scrypt KDF does not have it on passwords that differ by trailing NUL
+   bytes (PBKDF2-HMAC zero-pads: known finding C17-scrypt-trailing-nul).  With a KDF that sends two passwords to one user
+   key the statement is false: a witness with the free-constructor cipher and a KDF that forgets the last bit.
+   [C17_keys_unlock_own_only] is the partial statement: every KDF that is injective in the password. *)
+Theorem C17_keys_unlock_own_only_refuted_without_injectivity :
+  exists pw pw' : N, pw <> pw' /\
+    unlock N N N tkey N tblob lossy_kdf tdec (make_key N N N tkey N N tblob lossy_kdf tenc 0%N 0%N 0%N pw 7%N) pw' = Some 7%N.
+Proof. exact lossy_kdf_breaks_own_only. Qed.
+Print Assumptions C17_keys_unlock_own_only_refuted_without_injectivity.
+
 (* non-vacuity *)
 Example C17_defaults_accepted :
   option_map usable (gen_accept (Some 8) None) = Some true /\
